@@ -191,9 +191,16 @@ def init (w : W) (simTime prevTime : Int) : St W RN RL :=
 def fuel (cfg : Cfg) (simTime prevTime : Int) : Nat :=
   ((max cfg.duration simTime) - prevTime).toNat * (cfg.maxTrials.toNat + 1) + 1
 
-/-- `run_sim`: the loop with the explicit fuel -/
-def runSim (wd : World W RN RL) (cfg : Cfg) (w : W) (simTime prevTime : Int) : St W RN RL :=
+/-- the statements between the initialisation of the locals and `while True:`
+`if not first_step and self._wn.sim_time > self._wn.options.time.duration: get_results(...); return results`
+(a model already simulated up to the duration is left alone: empty tables, `error_code` None) -/
+def enter (cfg : Cfg) (w : W) (simTime prevTime : Int) : St W RN RL :=
   let s0 : St W RN RL := init w simTime prevTime
+  if !s0.firstStep && s0.simTime > cfg.duration then { s0 with halt := some .finished } else s0
+
+/-- `run_sim`: the early return, then the loop with the explicit fuel -/
+def runSim (wd : World W RN RL) (cfg : Cfg) (w : W) (simTime prevTime : Int) : St W RN RL :=
+  let s0 : St W RN RL := enter cfg w simTime prevTime
   iter wd cfg (fuel cfg s0.simTime s0.prevTime) s0
 
 /-- what the caller of `run_sim` sees -/
@@ -209,6 +216,239 @@ def St.result (s : St W RN RL) : Option (Result RN RL) :=
   match s.halt with
   | none => none
   | some h => if h.returns then some ⟨h, s.times, s.nodeRows, s.linkRows⟩ else some ⟨h, [], [], []⟩
+
+/-! ### the loop as DATA
+
+`Shape` is what the translator (`harness/props/c16.py`, Python `ast` over `run_sim`) regenerates into
+`Gen/RunLoopShape.lean` on every run: the statements of the loop body that matter, in order, as constructors.
+`execS` interprets such a program on the same state `St` with the same world; `Lemmas/RunLoopShape.lean` proves that
+the interpretation of `refShape` (below, written by hand next to `step`) IS `step`/`enter`, and `Props/C16.lean`
+proves by `decide` that the generated shape equals `refShape` -- so the theorems are about the program that was
+read off the current source. -/
+
+/-- calls that only act on the hidden world (their effect is inside `presolve` / `solve` / `post`) -/
+inductive WorldCall where
+  | updateTankHeads | runFeasibilityControls | updateInternalGraph | getIsolated | updateModelForControls
+  | sourceHeadParam | expectedDemandParam | storeResultsInNetwork
+  deriving DecidableEq, Repr
+
+inductive Cond where
+  | notResolve            -- `not resolve`
+  | notFirst              -- `not first_step`
+  | notFirstAndNotResolve -- `not first_step and not resolve`
+  | failedAndBackup       -- `solver_status == 0 and self._backup_solver is not None`
+  | failed                -- `solver_status == 0`
+  | convErrAttr           -- `self._convergence_error`
+  | convErrParam          -- `convergence_error`
+  | changed               -- `self._change_tracker.changes_made(ref_point='graph')`
+  | trialGtMax            -- `trial > max_trials`
+  | reportNumeric         -- `isinstance(self._report_timestep, (float, int))`
+  | reportAll             -- `self._report_timestep.upper() == 'ALL'`
+  | onGrid                -- `self._wn.sim_time % self._report_timestep == 0`
+  | alreadySolved         -- `len(results.time) > 0 and int(self._wn.sim_time) == results.time[-1]`
+  | nonIntegral           -- `int(self._wn.sim_time) != self._wn.sim_time`
+  | pastDuration          -- `self._wn.sim_time > self._wn.options.time.duration`
+  deriving DecidableEq, Repr
+
+inductive Act where
+  | world (c : WorldCall)
+  | resetTrial            -- `trial = 0`
+  | presolve              -- `self._compute_next_timestep_and_run_presolve_controls_and_rules(first_step)`
+  | solvePrimary          -- `solver_status, mesg, iter_count = _solver_helper(self._model, self._solver, self._solver_options)`
+  | solveBackup           -- `... = _solver_helper(self._model, self._backup_solver, self._backup_solver_options)`
+  | runPostsolve          -- `self._run_postsolve_controls()`
+  | setResolve (b : Bool) -- `resolve = b`
+  | incTrial              -- `trial += 1`
+  | setError              -- `results.error_code = wntr.sim.results.ResultsStatus.error`
+  | warnNoConv            -- `warnings.warn('Simulation did not converge ...')`
+  | warnTrials            -- `warnings.warn('Exceeded maximum number of trials ...')`
+  | save                  -- `wntr.sim.hydraulics.save_results(self._wn, node_res, link_res)`
+  | appendTime            -- `results.time.append(int(self._wn.sim_time))`
+  | updatePrev            -- `wntr.sim.hydraulics.update_network_previous_values(self._wn)`
+  | clearFirst            -- `first_step = False`
+  | advance               -- `sim_time += hyd; overstep = float(sim_time) % hyd; sim_time -= overstep`
+  deriving DecidableEq, Repr
+
+inductive Exc where
+  | noConv | trials | alreadySolved | subSecond
+  deriving DecidableEq, Repr
+
+inductive Stmt where
+  | skip
+  | act (a : Act)
+  | seq (s t : Stmt)
+  | ite (c : Cond) (t e : Stmt)
+  | raise (e : Exc)
+  | brk
+  | cont
+  deriving DecidableEq, Repr
+
+/-- a statement list -/
+def block : List Stmt → Stmt
+  | [] => .skip
+  | s :: r => .seq s (block r)
+
+structure Shape where
+  /-- `trial = <n>` before the loop -/
+  trialInit : Int
+  /-- `resolve = <b>` before the loop -/
+  resolveInit : Bool
+  /-- the early return `if not first_step and sim_time > duration: get_results; return results` is present -/
+  earlyReturn : Bool
+  /-- `get_results` is called after the loop and `results` returned -/
+  returnsResults : Bool
+  body : Stmt
+  deriving DecidableEq, Repr
+
+inductive Flow where
+  | normal | broke | continued | raised (e : Exc)
+  deriving DecidableEq, Repr
+
+/-- locals of one pass that are not part of `St` -/
+structure Loc where
+  ok : Bool          -- `solver_status != 0`
+  changed : Bool     -- what the last `runPostsolve` + feasibility controls did to the 'graph' reference point
+  err : Bool         -- `results.error_code` was set in this pass
+  warnedTrials : Bool
+  flow : Flow
+
+structure Mach (W RN RL : Type) where
+  s : St W RN RL
+  l : Loc
+
+def evalCond (cfg : Cfg) (m : Mach W RN RL) : Cond → Bool
+  | .notResolve => !m.s.resolve
+  | .notFirst => !m.s.firstStep
+  | .notFirstAndNotResolve => !m.s.firstStep && !m.s.resolve
+  | .failedAndBackup => !m.l.ok && cfg.backup
+  | .failed => !m.l.ok
+  | .convErrAttr => cfg.convErr
+  | .convErrParam => cfg.convErr
+  | .changed => m.l.changed
+  | .trialGtMax => m.s.trial > cfg.maxTrials
+  | .reportNumeric => cfg.report != 0
+  | .reportAll => cfg.report == 0
+  | .onGrid => m.s.simTime % cfg.report == 0
+  | .alreadySolved => m.s.times.getLast? = some m.s.simTime
+  | .nonIntegral => false
+  | .pastDuration => m.s.simTime > cfg.duration
+
+def doAct (wd : World W RN RL) (cfg : Cfg) (m : Mach W RN RL) : Act → Mach W RN RL
+  | .world _ => m
+  | .resetTrial => { m with s := { m.s with trial := 0 } }
+  | .presolve =>
+    let r := wd.presolve m.s.w m.s.simTime m.s.prevTime m.s.firstStep
+    { m with s := { m.s with w := r.1, simTime := r.2 } }
+  | .solvePrimary => let r := solveCall wd m.s false; { s := r.1, l := { m.l with ok := r.2.ok } }
+  | .solveBackup => let r := solveCall wd m.s true; { s := r.1, l := { m.l with ok := r.2.ok } }
+  | .runPostsolve => let r := wd.post m.s.w; { s := { m.s with w := r.1 }, l := { m.l with changed := r.2 } }
+  | .setResolve b => { m with s := { m.s with resolve := b } }
+  | .incTrial => { m with s := { m.s with trial := m.s.trial + 1 } }
+  | .setError => { m with l := { m.l with err := true } }
+  | .warnNoConv => m
+  | .warnTrials => { m with l := { m.l with warnedTrials := true } }
+  | .save => { m with s := { m.s with nodeRows := m.s.nodeRows ++ [wd.nodeRow m.s.w], linkRows := m.s.linkRows ++ [wd.linkRow m.s.w] } }
+  | .appendTime => { m with s := { m.s with times := m.s.times ++ [m.s.simTime] } }
+  | .updatePrev => { m with s := { m.s with accepted := m.s.accepted ++ [m.s.simTime], prevTime := m.s.simTime } }
+  | .clearFirst => { m with s := { m.s with firstStep := false } }
+  | .advance => { m with s := { m.s with simTime := (m.s.simTime + cfg.hyd) - (m.s.simTime + cfg.hyd) % cfg.hyd } }
+
+/-- structured-control-flow interpreter: a statement runs only while the flow is `normal` -/
+def execS (wd : World W RN RL) (cfg : Cfg) : Stmt → Mach W RN RL → Mach W RN RL
+  | .skip, m => m
+  | .act a, m => doAct wd cfg m a
+  | .seq s t, m =>
+    let m1 := execS wd cfg s m
+    match m1.l.flow with
+    | .normal => execS wd cfg t m1
+    | _ => m1
+  | .ite c t e, m => if evalCond cfg m c then execS wd cfg t m else execS wd cfg e m
+  | .raise e, m => { m with l := { m.l with flow := .raised e } }
+  | .brk, m => { m with l := { m.l with flow := .broke } }
+  | .cont, m => { m with l := { m.l with flow := .continued } }
+
+/-- how the pass was left -> the loop's halt status -/
+def haltOf (l : Loc) : Option Halt :=
+  match l.flow with
+  | .normal | .continued => none
+  | .broke => some (if l.err then (if l.warnedTrials then .flagTrials else .flagNoConv) else .finished)
+  | .raised .noConv => some .raiseNoConv
+  | .raised .trials => some .raiseTrials
+  | .raised .alreadySolved => some .raiseAlreadySolved
+  | .raised .subSecond => some .raiseAlreadySolved
+
+/-- one pass of the loop whose body is the program `sh.body` -/
+def stepS (sh : Shape) (wd : World W RN RL) (cfg : Cfg) (s : St W RN RL) : St W RN RL :=
+  match s.halt with
+  | some _ => s
+  | none =>
+    let m := execS wd cfg sh.body { s := s, l := { ok := true, changed := false, err := false, warnedTrials := false, flow := .normal } }
+    { m.s with halt := haltOf m.l }
+
+def iterS (sh : Shape) (wd : World W RN RL) (cfg : Cfg) : Nat → St W RN RL → St W RN RL
+  | 0, s => s
+  | n + 1, s => iterS sh wd cfg n (stepS sh wd cfg s)
+
+def enterS (sh : Shape) (cfg : Cfg) (w : W) (simTime prevTime : Int) : St W RN RL :=
+  let s0 : St W RN RL := { (init w simTime prevTime : St W RN RL) with trial := sh.trialInit, resolve := sh.resolveInit }
+  if sh.earlyReturn && (!s0.firstStep && s0.simTime > cfg.duration) then { s0 with halt := some .finished } else s0
+
+/-- `run_sim` as the interpretation of a shape -/
+def runSimS (sh : Shape) (wd : World W RN RL) (cfg : Cfg) (w : W) (simTime prevTime : Int) : St W RN RL :=
+  let s0 : St W RN RL := enterS sh cfg w simTime prevTime
+  iterS sh wd cfg (fuel cfg s0.simTime s0.prevTime) s0
+
+/-- the loop body `step` was written from (kept in the order of the source) -/
+def refBody : Stmt := block [
+  .ite .notResolve (block [
+      .ite .notFirst (.act (.world .updateTankHeads)) .skip,
+      .act .resetTrial,
+      .act .presolve]) .skip,
+  .act (.world .runFeasibilityControls),
+  .act (.world .updateInternalGraph),
+  .act (.world .getIsolated),
+  .ite .notFirstAndNotResolve (.act (.world .updateTankHeads)) .skip,
+  .act (.world .updateModelForControls),
+  .act (.world .sourceHeadParam),
+  .act (.world .expectedDemandParam),
+  .act .solvePrimary,
+  .ite .failedAndBackup (.act .solveBackup) .skip,
+  .ite .failed (block [
+      .ite .convErrAttr (.raise .noConv) .skip,
+      .act .warnNoConv,
+      .act .setError,
+      .brk]) .skip,
+  .act (.world .storeResultsInNetwork),
+  .act .runPostsolve,
+  .act (.world .runFeasibilityControls),
+  .ite .changed (block [
+      .act (.setResolve true),
+      .act (.world .updateInternalGraph),
+      .act (.world .updateModelForControls),
+      .act .incTrial,
+      .ite .trialGtMax (block [
+          .ite .convErrParam (.raise .trials) .skip,
+          .act .setError,
+          .act .warnTrials,
+          .brk]) .skip,
+      .cont]) .skip,
+  .act (.setResolve false),
+  .ite .reportNumeric
+    (.ite .onGrid (block [
+        .act .save,
+        .ite .alreadySolved (.ite .nonIntegral (.raise .subSecond) (.raise .alreadySolved)) .skip,
+        .act .appendTime]) .skip)
+    (.ite .reportAll (block [
+        .act .save,
+        .ite .alreadySolved (.raise .alreadySolved) .skip,
+        .act .appendTime]) .skip),
+  .act .updatePrev,
+  .act .clearFirst,
+  .act .advance,
+  .ite .pastDuration .brk .skip]
+
+def refShape : Shape :=
+  { trialInit := -1, resolveInit := false, earlyReturn := true, returnsResults := true, body := refBody }
 
 /-! ### the trace world used by the correspondence driver
 
